@@ -314,7 +314,7 @@ def vectorized_ltf_plan(**args):
     ravg = rmin * (1 + xov * (Kdes - 1))
     clog = (N / 2) ** (1 / Jdes) - 1
 
-    num_grid_points = int(10*Jdes)  # A sufficiently dense grid for most cases.
+    num_grid_points = max(int(10*Jdes), 1000)  # A sufficiently dense grid, also for very small Jdes.
     f_grid = np.logspace(np.log10(fmin), np.log10(fmax), num_grid_points)
 
     r_prime_grid = f_grid * clog
